@@ -32,11 +32,20 @@ func VerifC12_Precedence() {
 	var s *scalar
 	var pb *bool
 	defB := false
+	varForm := vBool("varform") // declared through the *Var form, the variable holding another value
 	if kind == 6 {
 		defB = vBool("defB")
-		pb = opt.Bool("name", defB, opt.GetEnv(c12env))
+		if varForm {
+			vb := !defB
+			opt.BoolVar(&vb, "name", defB, opt.GetEnv(c12env))
+			pb = &vb
+		} else {
+			pb = opt.Bool("name", defB, opt.GetEnv(c12env))
+		}
 	} else {
+		scalarVarForm = varForm
 		s = defineScalar(opt, kind, "name", opt.GetEnv(c12env))
+		scalarVarForm = false
 	}
 	// commands whose names are possible value texts: a value is a value
 	opt.NewCommand("cmd", "")
